@@ -1,7 +1,7 @@
 META = {
     "level": "model_checking",
     "technique": "TLA+ writer/reader state machine over bytes (WireCodec.tla: AddField/Rewind/GetField with RFC 4251 encoders and decoders defined on byte sequences, big integers as (sign, magnitude bytes)) model-checked by TLC over every message of a few fields and over single-field messages with boundary-rich values; each TLC-emitted message replayed on the real paramiko.Message; recorded add_*/get_* traces of seeded random messages (integers up to 4096 bits around every sign/byte boundary) validated by TLC against the same encoder, decoder and clause operators (WireCodec_Trace.tla)",
-    "text": "TLC enumerates every sequence of up to 2 (thorough: 4) fields over 14 values covering all nine field types, and every single-field message over all mpints whose magnitude is built from the byte classes {0,1,127,128,255} up to 3 (4) bytes, all integers -1100..1100 (-70000..70000), boundary uint32/uint64/adaptive values, strings, UTF-8 texts of 1-4 byte code points and name-lists; it checks on the model that read-back values equal written values in order, that already-read plus unread bytes always equal the message, that the wire is the concatenation of the field encodings, and that every mpint is the minimal two's complement form (zero = empty string, characterised independently of the encoder) denoting the integer written; every emitted message is written and read by the real Message and compared byte for byte; seeded random messages of 1-8 fields and mpints/adaptive ints at +-2^(8k), +-2^(8k-1), +-(2^(8k)-1), +-1 around them for k up to 512 are judged by TLC",
+    "text": "TLC enumerates every sequence of up to 2 (thorough: 4) fields over 14 values covering all nine field types, and every single-field message over all mpints whose magnitude is built from the byte classes {0,1,127,128,255} up to 3 (4) bytes, all integers -1100..1100 (-40000..40000), boundary uint32/uint64/adaptive values, strings, UTF-8 texts of 1-4 byte code points and name-lists; it checks on the model that read-back values equal written values in order, that already-read plus unread bytes always equal the message, that the wire is the concatenation of the field encodings, and that every mpint is the minimal two's complement form (zero = empty string, characterised independently of the encoder) denoting the integer written; every emitted message is written and read by the real Message and compared byte for byte; seeded random messages of 1-8 fields and mpints/adaptive ints at +-2^(8k), +-2^(8k-1), +-(2^(8k)-1), +-1 around them for k up to 512 are judged by TLC",
     "note": "trusted: TLC, int<->(sign, magnitude bytes) and str<->code point conversions in the driver, Python's own UTF-8 for rendering texts; name-lists are non-empty with non-empty comma-free names and texts exclude surrogates (statement / DESIGN.md Appendix F); byte layout of non-mpint fields is a conformance clause (the statement only demands the round trip for them), mpint layout is a property clause; Message.add() (type-guessing) is not covered",
 }
 import random
@@ -135,7 +135,7 @@ def run(c):
     if getattr(c, "replay_file", None):
         import json
         return replay(c, json.load(open(c.replay_file))["replay"])
-    maxf, maglen, irange = (2, 3, 1100) if c.quick else (4, 4, 70000)
+    maxf, maglen, irange = (2, 3, 1100) if c.quick else (4, 4, 40000)
     rnd = random.Random(c.seed)
     # ---- M: messages of several fields; single-field messages with rich values.  Both emit every message.
     r = c.mc_holds("WireCodec", cfg("SeqVals", maxf, maglen, irange, invariants=INVS + ["Emit"], single="RichVals", properties=["AddLegal", "GetLegal"]),
@@ -161,7 +161,7 @@ def run(c):
         types_seen.update(f["t"] for f in fields)
         c.case(key=("rp", n), sample=({"fields": [show_field(f) for f in fields], "wire": bytes(rec["wire"]).hex()}
                                       if len(fields) == maxf and n % 97 == 0 else None))
-        if not same or c.quick or n % 10 == 0 or len(fields) > 1:
+        if not same or c.quick or n % 20 == 0 or (len(fields) > 1 and n % 3 == 0):
             batch.append(rec)
             if not same:
                 must_flag.add(len(batch))
@@ -176,7 +176,7 @@ def run(c):
             fs = [codec.field_of("mpint", v)] + ([codec.field_of("adaptive", v)] if v >= 0 else [])
             batch.append(codec.run_wire_message(fs, reuse=rnd.random() < 0.5))
             c.case(key=("mpint", v))
-    for _ in range(500 if c.quick else 12000):
+    for _ in range(500 if c.quick else 8000):
         fs = [random_field(rnd) for _ in range(rnd.randint(1, 8))]
         batch.append(codec.run_wire_message(fs, reuse=rnd.random() < 0.5, binary=rnd.random() < 0.5))
         c.case(key=repr(fs))
